@@ -58,6 +58,8 @@ InvalidComponent: ...
 '123456789'
 >>> format('111223333')
 '111-22-3333'
+>>> format('1112233')  # only nine-digit numbers are formatted
+'1112233'
 """
 
 import re
@@ -110,6 +112,7 @@ def is_valid(number):
 
 def format(number):
     """Reformat the number to the standard presentation format."""
+    number = compact(number)
     if len(number) == 9:
         number = number[:3] + '-' + number[3:5] + '-' + number[5:]
     return number
